@@ -240,6 +240,38 @@ theorem detection_eq_model (ri ei : List (Rat × Rat)) (w b : Rat) (t : Bool) :
 theorem detection_defaults (ri ei : List (Rat × Rat)) :
     Mir.Gen.segment.detection ri ei = Boundary.detection ri ei (1 / 2) 1 false := detection_eq_model ri ei _ _ _
 
+/-! ### `segment.deviation` -/
+
+/-- **`segment.deviation` as translated = the hand model** (`Boundary.deviation`), for ALL interval lists and both values
+    of `trim`: `(nan, nan)` when a side has no boundaries, else the medians of the row / column minima of
+    `|ref_i − est_j|` (no ValueError path: every reduced axis is non-empty) -/
+theorem deviation_eq_model (ri ei : List (Rat × Rat)) (t : Bool) :
+    Mir.Gen.segment.deviation ri ei t = Boundary.deviation ri ei t := by
+  unfold Mir.Gen.segment.deviation Boundary.deviation PyEG.validate_boundary Boundary.boundaries
+    PyEG.intervals_to_boundaries
+  cases hv : Boundary.validateBoundary ri ei t with
+  | error x => rfl
+  | ok u =>
+    simp only [ok_bind, trim_eq, PyM.len, decide_eq_true_eq, Bool.or_eq_true, List.length_eq_zero_iff]
+    generalize Boundary.trimB t (Boundary.intervalsToBoundaries ri) = r
+    generalize Boundary.trimB t (Boundary.intervalsToBoundaries ei) = e
+    cases r with
+    | nil => rfl
+    | cons r0 rs =>
+      cases e with
+      | nil => simp
+      | cons e0 es =>
+        have hne : ¬ ((r0 :: rs) = [] ∨ (e0 :: es) = []) := by simp
+        rw [if_neg hne]
+        have h1 := PyEG.minAxis1_map (fun x y => MiscStats.absQ (x - y)) (r0 :: rs) e0 es
+        have hc := PyEG.columns_outer (fun x y => MiscStats.absQ (x - y)) (r0 :: rs) (e0 :: es)
+        have h0 := PyEG.minAxis1_map (fun y x => MiscStats.absQ (x - y)) (e0 :: es) r0 rs
+        simp only [PyEG.minAxis0, PyEG.absOuter, hc, h0, h1, ok_bind, PyEG.median]
+        try rfl
+
+theorem deviation_default (ri ei : List (Rat × Rat)) :
+    Mir.Gen.segment.deviation ri ei = Boundary.deviation ri ei false := deviation_eq_model ri ei _
+
 /-! ### the C05 / C04 / C07 headline statements on the translated definitions -/
 
 /-- **C05 (`fast_hit_windows_is_the_tolerance_predicate`) on the code as translated**: the translated
